@@ -74,7 +74,10 @@ class Family:
 BLOCKS = [("a",), ("b",), ("t",), ("a", "b"), ("b", "t"), ("a", "b", "t")]
 
 
-def trace(seed, family, rng, nsteps=14):
+def trace(seed, family, nsteps=14):
+    """Deterministic in (seed, family): the seed is the PRNG key of every step and seeds the choice of blocks."""
+    import random
+    rng = random.Random(seed * 3 + ("dict", "dataclass", "liesel").index(family))
     key = jax.random.PRNGKey(seed)
     start = {"a": rng.choice([0.3, 1.7, -0.4]), "b": rng.choice([-0.2, 0.6]), "t": rng.choice([4.0, 0.8, 2.5])}
     fam = Family(family, start)
@@ -91,8 +94,12 @@ def trace(seed, family, rng, nsteps=14):
             pos[k] = np.float32(x)
         corr = rng.choice([0.0, 0.0, -0.3, 0.4])
         before = fam.read(state)
-        info, new = mh_step(key, fam.iface, gs.Position({k: jnp.asarray(v) for k, v in pos.items()}), state,
-                            jnp.asarray(corr, jnp.float32))
+        try:
+            info, new = mh_step(key, fam.iface, gs.Position({k: jnp.asarray(v) for k, v in pos.items()}), state,
+                                jnp.asarray(corr, jnp.float32))
+        except Exception as ex:  # noqa: BLE001  (every block names fields the state has: the step must not refuse it)
+            ev.append({"ev": "mh_raised", "block": list(block), "error": f"{type(ex).__name__}: {ex}"[:200]})
+            break
         prop = dict(cur)
         prop.update({k: float(v) for k, v in pos.items()})
         ev.append({"ev": "mh", "block": list(block), "cur": fstr(exact(cur)), "prop": fstr(exact(prop)),
@@ -106,5 +113,5 @@ def trace(seed, family, rng, nsteps=14):
     return {"hdr": {"seed": int(seed), "family": family}, "ev": ev}
 
 
-def traces(seeds, rng, families=("dict", "dataclass", "liesel")):
-    return [trace(s, f, rng) for s in seeds for f in families]
+def traces(seeds, families=("dict", "dataclass", "liesel")):
+    return [trace(s, f) for s in seeds for f in families]
